@@ -161,7 +161,9 @@ def gen_bindkeys(rng, tier):
                 data = []
                 for k in keys:
                     r = rng.random()
-                    if r < 0.4:
+                    if r < 0.12:
+                        shape = "null"
+                    elif r < 0.4:
                         shape = "scalar"
                     elif r < 0.7:
                         shape = "array"
